@@ -5,6 +5,7 @@ import Rbql.Model.ReaderJs
 import Rbql.Model.Writer
 import Rbql.Model.Like
 import Driver.Codec
+import Driver.EngineOps
 open Rbql Driver
 
 def decPolicy (s : String) : Policy :=
@@ -114,10 +115,13 @@ def step (line : String) : String :=
     encRead (jsResult (jsBulk c (decStr text)) (decBool hdr) (decMod modi))
   | _ => "bad-op"
 
+def stepLine (line : String) : String :=
+  if line.startsWith "query " then opQuery (line.drop 6).toString else step line
+
 partial def loop (h : IO.FS.Stream) (out : IO.FS.Stream) : IO Unit := do
   let line ← h.getLine
   if line.isEmpty then return ()
-  out.putStrLn (step (line.trimAsciiEnd.toString))
+  out.putStrLn (stepLine (line.trimAsciiEnd.toString))
   loop h out
 
 def main : IO Unit := do
